@@ -40,15 +40,24 @@ func SpecEscaped(s string, i int) bool {
 //@   results r
 //@   ensures r == (a == b)
 
+// SpecHasSuffix / SpecHasPrefix: strings.HasSuffix / strings.HasPrefix.
+func SpecHasSuffix(s, suffix string) bool {
+	return len(s) >= len(suffix) && s[len(s)-len(suffix):] == suffix
+}
+
+func SpecHasPrefix(s, prefix string) bool {
+	return len(s) >= len(prefix) && s[:len(prefix)] == prefix
+}
+
 //@ extern strings.HasSuffix
 //@   params s suffix
 //@   results r
-//@   ensures r == (len(s) >= len(suffix) && s[len(s)-len(suffix):] == suffix)
+//@   ensures r == SpecHasSuffix(s, suffix)
 
 //@ extern strings.HasPrefix
 //@   params s prefix
 //@   results r
-//@   ensures r == (len(s) >= len(prefix) && s[:len(prefix)] == prefix)
+//@   ensures r == SpecHasPrefix(s, prefix)
 
 // OpaqueScanLines: the lines a bufio.Scanner with ScanLines and an unlimited buffer
 // yields for s (split at "\n", one trailing "\r" removed per line, no final empty line).
@@ -137,3 +146,30 @@ func forall(lo, hi int, p func(int) bool) bool {
 }
 
 func implies(a, b bool) bool { return !a || b }
+
+// OpaqueDec: value of a string of decimal digits (strconv.ParseUint(s, 10, 64) without
+// the overflow check); uninterpreted for the prover.
+func OpaqueDec(s string) int {
+	n := 0
+	for i := 0; i < len(s); i++ {
+		n = n*10 + int(s[i]-'0')
+	}
+	return n
+}
+
+// SpecAllDigits: s is a non-empty string of ASCII digits.
+func SpecAllDigits(s string) bool {
+	return len(s) > 0 && forall(0, len(s), func(i int) bool { return '0' <= s[i] && s[i] <= '9' })
+}
+
+// strconv.ParseUint(s, 10, bitSize) for bitSize 8: succeeds exactly for digit strings whose
+// value is at most 255 and then returns that value; on failure the value is 0 for
+// syntax errors and the maximum for range errors.
+//@ extern strconv.ParseUint
+//@   params s base bitSize
+//@   results v err
+//@   ensures implies(base == 10 && bitSize == 8, (err == nil) == (SpecAllDigits(s) && OpaqueDec(s) <= 255))
+//@   ensures implies(base == 10 && bitSize == 8 && err == nil, v == OpaqueDec(s))
+//@   ensures implies(base == 10 && bitSize == 8, 0 <= v && v <= 255)
+//@   ensures implies(len(s) == 0, err != nil && v == 0)
+//@   ensures OpaqueDec(s) >= 0
